@@ -239,17 +239,34 @@ def check_partition_relations(world, rec):
                         want.append(seam.expression_sig(e))
         have = [it["sig"] for it in mine]
         # set semantics, up to sign (an equality e == 0 and -e == 0 are the same relation)
+        def keyof(s_):
+            # sign-normalised, rounded key (an equality e == 0 and -e == 0 are the same relation)
+            sc = max(abs(v) for v in s_)
+            if sc <= 1e-13:
+                return None
+            t = tuple(round(v / sc, 7) for v in s_)
+            first = next(v for v in t if v != 0)
+            if first < 0:
+                t = tuple(-v for v in t)
+            return (round(sc, 7 - int(np.floor(np.log10(sc))) if sc > 0 else 7), t)
+
         def canon(sigs):
-            out = []
+            out = {}
             for s_ in sigs:
-                if max(abs(v) for v in s_) <= 1e-13:
-                    continue
-                if not any(seam.sig_close(s_, t) or seam.sig_close(seam.sig_neg(s_), t) for t in out):
-                    out.append(s_)
+                k_ = keyof(s_)
+                if k_ is not None:
+                    out.setdefault(k_, s_)
             return out
         cw, ch = canon(want), canon(have)
-        missing = [s_ for s_ in cw if not any(seam.sig_close(s_, t) or seam.sig_close(seam.sig_neg(s_), t) for t in ch)]
-        extra = [s_ for s_ in ch if not any(seam.sig_close(s_, t) or seam.sig_close(seam.sig_neg(s_), t) for t in cw)]
+
+        def near(k_, pool):
+            # exact key hit, or a neighbour within tolerance (rounding boundary): fall back to a scan
+            if k_ in pool:
+                return True
+            s_ = cw.get(k_) or ch.get(k_)
+            return any(seam.sig_close(s_, t) or seam.sig_close(seam.sig_neg(s_), t) for t in pool.values())
+        missing = [k_ for k_ in cw if not near(k_, ch)]
+        extra = [k_ for k_ in ch if not near(k_, cw)]
         if missing:
             world.violation("C15/relations", "cross-block-relation-not-imposed", {"B": Bn, "d": d, "missing": len(missing),
                                                                                  "points": len(pts)})
